@@ -252,7 +252,7 @@ Store(id) ==
   /\ "pos" \in Kinds /\ Tick
   /\ pos' = Put(pos, KeyOf(PreOfId(id)), Entry(id, 0))
   /\ fail' = IF NormOf[id.scope] = "sh" THEN ResetFail(fail, id.name, id.type, id.class, id.cd, "sh") ELSE fail
-  /\ last' = [op |-> "store"]
+  /\ last' = [op |-> "store", id |-> id]
   /\ UNCHANGED <<cuts, chash>> /\ Same
 
 (* the same writers, key of preimage b, entry of identity id *)
@@ -260,7 +260,7 @@ StoreForged(b, id) ==
   /\ "pos" \in Kinds /\ Tick /\ b.type # "T0" /\ PreOfId(id) # b
   /\ pos' = Put(pos, KeyOf(b), Entry(id, 0))
   /\ fail' = IF NormOf[id.scope] = "sh" THEN ResetFail(fail, id.name, id.type, id.class, id.cd, "sh") ELSE fail
-  /\ last' = [op |-> "forge"]
+  /\ last' = [op |-> "forge", under |-> b, id |-> id]
   /\ UNCHANGED <<cuts, chash>> /\ Same
 
 (* Store.ReplaceIfCurrent: the replacement inherits the CD partition and   *)
@@ -269,7 +269,7 @@ Refresh(b, rn, rcd) ==
   /\ "pos" \in Kinds /\ Tick /\ b.type # "T0" /\ Has(pos, KeyOf(b))
   /\ rn \in Names /\ FoldOf[rn] = FoldOf[pos[KeyOf(b)].name] /\ rcd \in BOOLEAN
   /\ pos' = [pos EXCEPT ![KeyOf(b)] = [@ EXCEPT !.name = rn, !.gen = 1]]
-  /\ last' = [op |-> "refresh", key |-> KeyOf(b), old |-> pos[KeyOf(b)]]
+  /\ last' = [op |-> "refresh", under |-> b, rn |-> rn, rcd |-> rcd, key |-> KeyOf(b), old |-> pos[KeyOf(b)]]
   /\ UNCHANGED <<fail, cuts, chash>> /\ Same
 
 (* a client query through the pipeline with a caching downstream: a miss   *)
@@ -284,20 +284,20 @@ Ask(x, rs) ==
                         [name |-> x.name, type |-> x.type, class |-> x.class, cd |-> x.cd, scope |-> rs, gen |-> 0])
           /\ fail' = LET f1 == IF rs = "sh" THEN ResetFail(fail, x.name, x.type, x.class, x.cd, "sh") ELSE fail
                      IN ResetFail(f1, x.name, x.type, x.class, x.cd, OwnScope[x.client])
-  /\ last' = [op |-> "ask"]
+  /\ last' = [op |-> "ask", q |-> x, rs |-> rs, hit |-> Hit(PipeMsg(x))]
   /\ UNCHANGED <<cuts, chash>> /\ Same
 
 (* Store.RecordFailure / FailureCache.record: a different key under the hash is replaced *)
 RecFail(id) ==
   /\ "fail" \in Kinds /\ Tick
   /\ fail' = Put(fail, KeyOf(PreOfId(id)), FOfId(id))
-  /\ last' = [op |-> "recfail"]
+  /\ last' = [op |-> "recfail", id |-> id]
   /\ UNCHANGED <<pos, cuts, chash>> /\ Same
 (* failure identity id filed under the hash of preimage b (overlay shim) *)
 ForgeFail(b, id) ==
   /\ "fail" \in Kinds /\ Tick /\ b.type # "T0" /\ PreOfId(id) # b
   /\ fail' = Put(fail, KeyOf(b), FOfId(id))
-  /\ last' = [op |-> "forgefail"]
+  /\ last' = [op |-> "forgefail", under |-> b, id |-> id]
   /\ UNCHANGED <<pos, cuts, chash>> /\ Same
 
 (* Store.RecordNXDomainCut: exact map + hash index (last write wins) *)
@@ -305,13 +305,13 @@ RecCut(c) ==
   /\ "cut" \in Kinds /\ Tick
   /\ cuts' = cuts \cup {c}
   /\ chash' = Put(chash, KeyOf(CutPre(c.name, c.class)), c)
-  /\ last' = [op |-> "reccut"]
+  /\ last' = [op |-> "reccut", c |-> c]
   /\ UNCHANGED <<pos, fail>> /\ Same
 (* index slot of cut preimage b pointed at cut c (overlay shim) *)
 ForgeCut(b, c) ==
   /\ "cut" \in Kinds /\ Tick /\ b.type = "T0" /\ CutPre(c.name, c.class) # b
   /\ chash' = Put(chash, KeyOf(b), c)
-  /\ last' = [op |-> "forgecut"]
+  /\ last' = [op |-> "forgecut", under |-> b, c |-> c]
   /\ UNCHANGED <<pos, fail, cuts>> /\ Same
 
 (* Store.Purge(q): both CD keys of the shared partition are removed BY KEY *)
